@@ -82,10 +82,10 @@ def gen_text_case(rng):
     for _ in range(rng.randint(0, 8)):
         nl = rng.randint(1, 3)
         store.append({'text': '\n'.join('x' * rng.randint(1, 3) for _ in range(nl)), 'lang': rng.choice(langs),
-                      'ref': rng.choice(refs), 'ver': rng.choice([None, 1, 1, 2, 3]),
+                      'ref': rng.choice(refs), 'ver': rng.choice([None, 0, 0, 1, 1, 2, 3]),
                       'width': rng.choice([None, 0, 1, 2, 3, 4, 5])})
     f = {'refs': rng.sample(refs + ['zz'], rng.randint(0, 2)) if rng.random() < 0.6 else [],
-         'version': rng.choice([None, None, 1, 2, 4]),
+         'version': rng.choice([None, None, 0, 0, 1, 2, 4]),
          'langs': rng.sample(langs + ['it'], rng.randint(0, 2)) if rng.random() < 0.5 else [],
          'widths': rng.sample(range(6), rng.randint(0, 2)) if rng.random() < 0.5 else [],
          'lines': rng.sample([1, 2, 3], rng.randint(0, 2)) if rng.random() < 0.5 else []}
